@@ -106,8 +106,33 @@ def add_method(svc, name, input_type, output_type, http=None, signatures=(), cli
     return m
 
 
-def build_api(files, params="", to_generate=None, extra_dep_modules=()):
+def _with_option_files(params, service_yaml, retry_config, tmpfiles):
+    import json
+    for key, content in (("service-yaml", service_yaml), ("retry-config", retry_config)):
+        if content is None:
+            continue
+        f = tempfile.NamedTemporaryFile("w", suffix=".yaml" if key == "service-yaml" else ".json", prefix="genlab_", delete=False)
+        json.dump(content, f)        # JSON is YAML
+        f.close()
+        tmpfiles.append(f.name)
+        params = (params + "," if params else "") + f"{key}={f.name}"
+    return params
+
+
+def build_api(files, params="", to_generate=None, extra_dep_modules=(), service_yaml=None, retry_config=None):
     """The same sequence as gapic.cli.generate.generate, in process."""
+    from gapic.utils import Options
+    from gapic.schema import api
+    tmpfiles = []
+    try:
+        params = _with_option_files(params, service_yaml, retry_config, tmpfiles)
+        return _build_api(files, params, to_generate, extra_dep_modules)
+    finally:
+        for t in tmpfiles:
+            os.unlink(t)
+
+
+def _build_api(files, params, to_generate, extra_dep_modules):
     from gapic.utils import Options
     from gapic.schema import api
     req = plugin_pb2.CodeGeneratorRequest(parameter=params)
@@ -119,9 +144,9 @@ def build_api(files, params="", to_generate=None, extra_dep_modules=()):
     return api.API.build(req.proto_file, opts=opts, package=package), opts
 
 
-def generate(files, params="", to_generate=None, extra_dep_modules=()):
+def generate(files, params="", to_generate=None, extra_dep_modules=(), service_yaml=None, retry_config=None):
     from gapic import generator
-    api_schema, opts = build_api(files, params, to_generate, extra_dep_modules)
+    api_schema, opts = build_api(files, params, to_generate, extra_dep_modules, service_yaml, retry_config)
     res = generator.Generator(opts).get_response(api_schema, opts)
     return api_schema, res
 
